@@ -11,3 +11,10 @@ Proof. reflexivity. Qed.
    by the registration calls only (tools/gen_engine.py, item 14) *)
 Lemma now_registrations_written_by_registration_calls : registrations_written_by_registration_calls = true.
 Proof. reflexivity. Qed.
+
+(* the ties of "a load writes the StoryState only" (Shell/HostFrameLoad.v, LoadErrors.v, Events.v) and of "reset does
+   not read the old state" (Shell/ResetProofs.v) — tools/gen_engine.py, item 15 *)
+Lemma now_load_writes_state_only : load_writes_state_only = true.
+Proof. reflexivity. Qed.
+Lemma now_reset_replaces_state : reset_replaces_state = true.
+Proof. reflexivity. Qed.
